@@ -53,9 +53,19 @@ def gen(tier, rng, scale):
         for p in range(nproc):
             if not any(cr[1] == p for cr in creators):
                 creators[rng.below(n)][1] = p
-        style = rng.below(7)
+        style = rng.below(8)
         decisions = []
-        if style == 6:
+        if style == 7:
+            # a WAITER is cancelled: creator 1 takes the lock and is somewhere in its write, creator 2 arrives, finds the lock held and waits; its future
+            # is dropped while it waits (or a little later); everybody else carries on
+            decisions += [[2, 1]] * (4 + rng.range(0, creators[0][2]))
+            decisions += [[2, 2]] * 2
+            for _ in range(rng.range(0, 2)):
+                decisions.append([2, 1])
+            decisions.append([3, 2])
+            for _ in range(rng.range(0, 12)):
+                decisions.append([0, rng.below(64)] if rng.chance(9, 10) else [3, rng.range(1, n)])
+        elif style == 6:
             # cancellation: creator 1 (its write function succeeds; the blocking pool of its runtime is busy until released) is run up to some
             # point - most often right up to the end of its write - and then CANCELLED (its future is dropped at the next await that is not
             # ready); other creators take over, the pool is released at some point, everybody finishes
